@@ -10,6 +10,16 @@ listed.  Faults are *enumerated*: every git step before the load fails / cannot 
 after it ran; unknown ref; absent package; syntax errors; an extension raising (exception, KeyboardInterrupt, a
 real SIGINT) at its n-th event for every n of the recorded trace; dynamic analysis with bytecode writing on; an
 extension writing into the checkout; ``check()`` with and without ``base_ref``.
+
+Histories also carry tracked symbolic links (a module that is a link to a sibling module, retargeted between refs and
+turning into a regular file; a sub-package reachable through a link to its directory; a module that is a link, through a
+second link, to a file outside the package; a dangling link), modules whose file names / identifiers / docstrings are not
+ASCII, and every module text differs between refs.  The repository is also reached through a symbolic link and TMPDIR may
+be one.  "Remain fully usable" is judged statefully: ``lines`` / ``source`` / ``docstring.source`` of EVERY object of every
+returned package (and of the packages ``check()`` worked on, captured by the extension) are compared with the blobs git
+stores at the commit the reference designated before the call (spans from CPython's ``ast``), after the checkout is gone,
+again while a later load of another ref is in progress (inside its ``on_package_loaded``), and after every later
+operation, faulted ones included.
 """
 from __future__ import annotations
 
@@ -42,8 +52,17 @@ RULE = ("seeded scratch repositories (4-6 commits incl. package-absent, two API 
         "bytecode writing; an extension writing an untracked / an ignored file into the checkout; the checkout directory "
         "vanishing during the load; a stale (prunable) worktree entry of the user's own in the repository; check() with explicit "
         "and implicit `against`, with and without base_ref, each with all git-step faults and extension faults at three "
-        "trace positions. distinct = (history, operation, fault); non-trivial = the fault fires after the temporary "
-        "worktree exists")
+        "trace positions. Every history has tracked symbolic links (module -> sibling module, retargeted between refs and a "
+        "regular file in the last API variant; directory link to a sub-package; module -> link -> file outside the package; "
+        "dangling link), often a module with a non-ASCII file name, identifiers and docstrings, module texts that differ "
+        "between refs, an untracked link / non-ASCII untracked module in the user's tree; the repository path is also given "
+        "as a symbolic link and TMPDIR is a symbolic link in a third of the histories; two loads share one caller-supplied "
+        "lines collection. The last two successful results are kept alive: lines / source / docstring.source of every "
+        "object are compared with git's blobs at the pre-resolved commit after cleanup, inside the next loads "
+        "(on_package_loaded, another checkout alive) and after every later operation; check()'s packages are captured by "
+        "the extension and judged the same way (the working-tree package against the files on disk). In the quick tier a "
+        "trace longer than 56 events is faulted at its first and last ten events and 36 evenly spread positions. "
+        "distinct = (history, operation, fault); non-trivial = the fault fires after the temporary worktree exists")
 LEVEL_TEXT = ("For every generated repository every enumerated fault point of load_git/check is exercised once and the "
               "repository snapshot and the private TMPDIR listing are compared before/after; the cleanup commands themselves "
               "are never made to fail and never interrupted (domain restriction of the design). Histories are sampled (seeded).")
@@ -56,7 +75,14 @@ REQUIRED_COUNTERS = ["snapshots_compared", "tmpdir_listings_checked", "git_step_
                      "interrupts_delivered", "sigint_delivered", "usability_probes", "source_lines_compared",
                      "check_runs", "cleanup_commands_observed", "bytecode_written_in_worktree", "checkout_vanished_cases", "user_stale_worktree_cases", "preexisting_branch_cases",
                      "unknown_ref_cases", "absent_package_cases", "syntax_error_cases", "faults_after_worktree_exists",
-                     "successful_loads"]
+                     "successful_loads",
+                     # sources of returned objects against git's blobs, once the checkout is gone / while another one exists
+                     "loaded_packages_verified_after_cleanup", "sources_compared_after_cleanup",
+                     "docstring_sources_compared_after_cleanup", "symlinked_sources_compared_after_cleanup",
+                     "nonascii_path_sources_compared_after_cleanup", "sources_compared_during_later_load",
+                     "symlinked_sources_compared_during_later_load", "held_results_reread", "check_packages_from_refs_verified",
+                     "check_packages_from_working_tree_verified", "checkout_commits_observed", "symlinked_tmpdir_cases",
+                     "symlinked_repo_path_cases", "loads_into_a_shared_lines_collection"]
 EXHAUSTIVE = {"quick": False, "thorough": False}
 ASSUMPTIONS = ["the three cleanup commands (worktree remove / worktree prune / branch -D) are never failed nor interrupted; "
                "their real exit statuses are recorded",
@@ -64,11 +90,18 @@ ASSUMPTIONS = ["the three cleanup commands (worktree remove / worktree prune / b
                "'exactly as it was' is read as equality of: HEAD, symbolic ref, for-each-ref, status --porcelain=v2 "
                "--untracked-files=all, worktree list --porcelain, stash list, index entries, content hash of the working "
                "tree, .git/worktrees listing; plus an empty private TMPDIR",
-               "fault points are enumerated completely per repository; repositories are sampled"]
+               "fault points are enumerated completely per repository (quick tier: extension events of a trace longer than "
+               "56 are sampled at fixed positions); repositories are sampled",
+               "'remain fully usable, including their source lines' is read as: lines / source / docstring.source of every "
+               "non-alias object equal the text git stores for the object's file at the commit the reference designated "
+               "(symbolic links followed as a checkout would), with spans taken from CPython's ast; objects built by "
+               "dynamic inspection are compared over the line numbers they report",
+               "tracked links point inside the repository (relative targets); links leaving the repository are not generated"]
 SHARD_TIMEOUT = {"quick": 900, "thorough": 7200}
 NO_REACH = False
 
 GIT_KINDS = ["fail", "raise", "int-before", "int-after"]
+QUICK_EXT_POINTS = 56
 
 API = [
     'def f(a, b=1):\n    """Doc of f."""\n    return a\n\n\ndef g():\n    return 1\n',
@@ -78,12 +111,82 @@ API = [
 SUB = 'class K:\n    """K."""\n\n    x: int = 1\n\n    def m(self, y=0):\n        return y\n\n\ndef helper(z):\n    return z\n'
 
 
-# ------------------------------------------------------------------------------------------
-# histories (literal)
-def pkg_files(prefix: str, name: str, variant: int) -> dict:
+# small modules that exist only to be reached through unusual paths; every text differs between the API variants, so
+# that a source served from the wrong ref (or from the wrong file) is visible
+IMPL = [
+    'def run(x):\n    """Run, first shape."""\n    return x\n',
+    'def run(x, y=0):\n    """Run, second shape.\n\n    More words.\n    """\n    return x + y\n\n\nLIMIT: int = 3\n"""Doc of LIMIT."""\n',
+    'import functools\n\n\n@functools.cache\ndef run(x, y=0, *rest):\n    """Run, third shape."""\n    return x\n\n\nasync def pause(*, seconds=0):\n    return None\n',
+]
+INNER = [
+    'class Inner:\n    """Inner, first."""\n\n    level = 1\n',
+    'class Inner:\n    """Inner, second."""\n\n    level = 2\n\n    def up(self):\n        """Up."""\n        return self.level + 1\n',
+    '"""Module docstring of inner."""\n\n\nclass Inner:\n    """Inner, third."""\n\n    level = 3\n',
+]
+NONASCII_STEMS = ["caf\u00e9", "\u043c\u043e\u0434\u0443\u043b\u044c", "\u6a21\u5757_x", "na\u00efve_\u00fc"]
+NONASCII = [
+    '"""Th\u00e9 \u2603 module."""\n\n\ndef th\u00e9(\u00e5=1):\n    """Sert le th\u00e9 \u2014 \u00e0 17 h."""\n    return \u00e5\n',
+    '"""Th\u00e9 \u2603 module, \u4e8c."""\n\n\ndef th\u00e9(\u00e5=1, \u00df=2):\n    """Sert le th\u00e9 \u2014 \u00e0 17 h 30."""\n    return \u00e5\n',
+    'def th\u00e9():\n    """\u8336."""\n    return "\U0001f375"\n\n\n\u0394 = 0.5\n"""\u0394 is small."""\n',
+]
+EXTRA_KINDS = ["module-link", "dir-link", "outside-link", "nonascii", "dangling-link"]
+
+
+def extra_files(prefix: str, name: str, variant: int, extras: dict) -> dict:
+    """Tracked files beyond the two plain modules. A value ``{"symlink": t}`` is a tracked symbolic link, ``None`` = absent.
+
+    * module-link: an old module name kept alive as a link to a sibling module; the link is retargeted between refs and is
+      a regular file in the last variant (the path changes its type).
+    * dir-link: a sub-package reachable under two names, one of them a link to the directory.
+    * outside-link: a module that is a link to a file outside the package, reached through a second link (a chain).
+    * nonascii: a module whose file name, identifiers and docstrings are not ASCII.
+    * dangling-link: a tracked link whose target does not exist.
+    """
+    pk = f"{prefix}{name}/"
+    up = "../" * (2 if prefix else 1)
+    out: dict = {}
+    if "module-link" in extras:
+        out[pk + "impl.py"] = None if variant == 0 else IMPL[variant]
+        out[pk + "compat.py"] = [{"symlink": "sub.py"}, {"symlink": "impl.py"}, IMPL[0]][variant]
+    if "dir-link" in extras:
+        real = extras["dir-link"]
+        out[pk + real + "/__init__.py"] = f'"""Sub-package, variant {variant}."""\nFLAG = {variant}\n'
+        out[pk + real + "/inner.py"] = INNER[variant]
+        out[pk + "linked"] = {"symlink": real}
+    if "outside-link" in extras:
+        out["shared/impl.py"] = IMPL[(variant + 1) % 3]
+        out["shared/hop.py"] = {"symlink": "impl.py"}
+        out[pk + "outside.py"] = {"symlink": up + "shared/hop.py"} if variant != 1 else {"symlink": up + "shared/impl.py"}
+    if "nonascii" in extras:
+        out[pk + extras["nonascii"] + ".py"] = NONASCII[variant]
+    if "dangling-link" in extras:
+        out[pk + "gone.py"] = {"symlink": "nowhere.py"}
+    return out
+
+
+def pkg_files(prefix: str, name: str, variant: int, extras: dict | None = None) -> dict:
     init = (f'"""Package {name}, API variant {variant}."""\nfrom .sub import helper\nfrom {name}.sub import K as Klass\n'
             f'__all__ = ["f", "g", "helper", "Klass"]\n\n\n' + API[variant])
-    return {f"{prefix}{name}/__init__.py": init, f"{prefix}{name}/sub.py": SUB}
+    return {f"{prefix}{name}/__init__.py": init, f"{prefix}{name}/sub.py": SUB, **extra_files(prefix, name, variant, extras or {})}
+
+
+def gen_extras(rng: random.Random) -> dict:
+    """Which unusual tracked paths a history has: always one kind of link, often a second kind and a non-ASCII name."""
+    extras: dict = {}
+    kinds = [rng.choice(["module-link", "dir-link", "outside-link"])]
+    if rng.random() < 0.35:
+        kinds.append(rng.choice(["module-link", "dir-link", "outside-link"]))
+    if rng.random() < 0.55:
+        kinds.append("nonascii")
+    if rng.random() < 0.2:
+        kinds.append("dangling-link")
+    for k in kinds:
+        extras[k] = True
+    if "dir-link" in extras:
+        extras["dir-link"] = rng.choice(["real", "r\u00e9el"])
+    if "nonascii" in extras:
+        extras["nonascii"] = rng.choice(NONASCII_STEMS)
+    return extras
 
 
 def gen_history(rng: random.Random, tag: str) -> dict:
@@ -126,6 +229,22 @@ def gen_history(rng: random.Random, tag: str) -> dict:
         "pre_branches": rng.choice([[], [], ["griffe-v0-1-0"], ["griffe-v0-1-0", "griffe-topic-deep-er"]]),
         "worktrees": [{"branch": "wt/live", "dir": "user worktree", "at": "v0.2.0"}] if rng.random() < 0.4 else [],
     }
+    # drawn last (the draws above stay what they were for a given seed): tracked links, non-ASCII names; the user's tree
+    # gets an untracked link and an untracked module with a non-ASCII name as well
+    extras = gen_extras(rng)
+    hist["extras"] = extras
+    for c in commits:
+        if c["state"] != "absent":
+            variant = c["state"] if isinstance(c["state"], int) else 1
+            for k, v in extra_files(prefix, name, variant, extras).items():
+                c["files"].setdefault(k, v)
+    for sd in hist["side"]:
+        sd["files"].update(extra_files(prefix, name, sd["state"], extras))
+    if rng.random() < 0.5:
+        hist["untracked"]["notes/latest"] = {"symlink": "todo.txt"}
+    if rng.random() < 0.5:
+        hist["untracked"][f"{prefix}{name}/\u00e9bauche.py"] = "Y = 2\n"
+    hist["tmpdir"] = rng.choice(["plain", "plain", "symlinked"])
     return hist
 
 
@@ -174,6 +293,11 @@ def make_extension(fault: dict | None, state: dict):  # noqa: ANN201
 
     def tick(self, event, kwargs):  # noqa: ANN001, ANN202
         state["events"] += 1
+        if event == "on_package_loaded" and state.get("observer") is not None:
+            try:  # the monitor looks at the package while the temporary checkout still exists; it never disturbs the load
+                state["observer"](kwargs["pkg"])
+            except Exception as exc:  # noqa: BLE001
+                state.setdefault("observer_errors", []).append(f"{type(exc).__name__}: {exc}"[:300])
         if fault is None:
             return
         if fault["type"] == "ext" and state["events"] == fault["n"]:
@@ -235,8 +359,19 @@ class Repo:
         os.makedirs(os.path.dirname(self.pristine))
         gs.build_repo(hist, self.pristine)
         self.path = os.path.join(self.home, "user", hist["dirname"])
+        self.link = os.path.join(self.home, "link to repo")  # the user's repository reached through a symbolic link
+        os.symlink(self.path, self.link)
         self.before: dict | None = None
+        self.trees: dict[str, gs.GitTree] = {}
+        self.held: list[dict] = []  # results of earlier successful loads, kept alive and re-read later on
+        self.shared_lines = None
         self.fresh()
+
+    def tree(self, commit: str) -> gs.GitTree:
+        """What git stores at a commit (commits never change, so this survives ``fresh``)."""
+        if commit not in self.trees:
+            self.trees[commit] = gs.GitTree(self.path, commit)
+        return self.trees[commit]
 
     def fresh(self) -> None:
         shutil.rmtree(os.path.dirname(self.path), ignore_errors=True)
@@ -332,6 +467,168 @@ def usability(rec, result, hist: dict, expected_files: dict | None, inspected: b
 
 
 # ------------------------------------------------------------------------------------------
+# source lines of loaded objects against what git stores (M-SRC): CPython's ast gives the spans, git gives the text
+_AST_CACHE: dict[str, dict] = {}
+
+
+def ast_index(text: str) -> dict:
+    """qualified name -> {"span": (first, last line), "doc": (first, last line) | None}; "" is the module itself.
+
+    Spans follow the language, not griffe: a definition starts at its first decorator; the docstring of a name is the string
+    statement that opens the body (module, class, function) or follows the assignment. A name bound twice in one scope is
+    left out (``None``): which binding a tool reports is not this property's business.
+    """
+    import ast
+
+    if text in _AST_CACHE:
+        return _AST_CACHE[text]
+    out: dict = {}
+    try:
+        tree = ast.parse(text)
+    except (SyntaxError, ValueError):
+        _AST_CACHE[text] = out
+        return out
+
+    def doc_of(body):  # noqa: ANN001, ANN202
+        if body and isinstance(body[0], ast.Expr) and isinstance(body[0].value, ast.Constant) and isinstance(body[0].value.value, str):
+            return (body[0].value.lineno, body[0].value.end_lineno)
+        return None
+
+    def put(name, entry):  # noqa: ANN001, ANN202
+        out[name] = None if name in out else entry
+
+    def scope(body, prefix):  # noqa: ANN001, ANN202
+        for i, node in enumerate(body):
+            if isinstance(node, (ast.FunctionDef, ast.AsyncFunctionDef, ast.ClassDef)):
+                first = min([node.lineno, *[d.lineno for d in node.decorator_list]])
+                put(prefix + node.name, {"span": (first, node.end_lineno), "doc": doc_of(node.body)})
+                if isinstance(node, ast.ClassDef):
+                    scope(node.body, prefix + node.name + ".")
+            elif isinstance(node, (ast.Assign, ast.AnnAssign)):
+                targets = node.targets if isinstance(node, ast.Assign) else [node.target]
+                for t in targets:
+                    if isinstance(t, ast.Name):
+                        put(prefix + t.id, {"span": (node.lineno, node.end_lineno), "doc": doc_of(body[i + 1:i + 2])})
+
+    out[""] = {"span": None, "doc": doc_of(tree.body)}
+    scope(tree.body, "")
+    _AST_CACHE[text] = out
+    return out
+
+
+def worktree_root(path) -> str | None:  # noqa: ANN001
+    """The directory of the temporary checkout a file path lies in (``.../griffe-worktree-*/<ref>``), if any."""
+    parts = Path(path).parts
+    for i, part in enumerate(parts[:-1]):
+        if part.startswith("griffe-worktree-") and i + 2 < len(parts):
+            return os.path.join(*parts[:i + 2])
+    return None
+
+
+def verify_sources(rec, pkg, truth: dict, phase: str, label: str, structural_only: bool = False) -> list[str]:  # noqa: ANN001, C901, PLR0912
+    """``source`` / ``lines`` / ``docstring.source`` of every object below ``pkg`` against the ground truth.
+
+    ``truth``: {"tree": GitTree, "root": checkout directory the file paths must lie in} for a package loaded from a ref, or
+    {"fs": directory} for one loaded from the user's working tree (the files are still there and are the truth).
+    """
+    from textwrap import dedent
+
+    problems: list[str] = []
+
+    def bad(msg: str) -> None:
+        if len(problems) < 6:
+            problems.append(f"[{phase}] {label}: {msg}"[:400])
+
+    def module_truth(mod):  # noqa: ANN001, ANN202
+        fp = mod.filepath
+        if isinstance(fp, list):
+            return None
+        fp = str(fp)
+        if "tree" in truth:
+            root = truth["root"]
+            if root is None or not fp.startswith(root + os.sep):
+                bad(f"module {mod.path} of a package loaded from a ref has its file outside the temporary checkout: {fp}")
+                return None
+            rel = os.path.relpath(fp, root)
+            text, hops = truth["tree"].text(rel)
+            if text is None:
+                bad(f"module {mod.path} was loaded from {rel}, which git does not have at commit {truth['tree'].commit[:10]}")
+                return None
+            return text, hops, rel
+        if not fp.startswith(truth["fs"] + os.sep):
+            bad(f"module {mod.path} of the package loaded from the working tree has its file elsewhere: {fp}")
+            return None
+        try:
+            with open(fp, encoding="utf8") as fh:
+                return fh.read(), int(os.path.realpath(fp) != fp), os.path.relpath(fp, truth["fs"])
+        except OSError as exc:
+            bad(f"file of module {mod.path} in the user's working tree is unreadable: {exc}")
+            return None
+
+    def visit(obj, mod, mtruth, seen):  # noqa: ANN001, ANN202
+        if id(obj) in seen:
+            return
+        seen.add(id(obj))
+        if obj.is_module:
+            mod, mtruth = obj, module_truth(obj)
+        if mtruth is not None:
+            text, hops, rel = mtruth
+            want_all = text.splitlines()
+            index = ast_index(text)
+            qual = obj.path[len(mod.path) + 1:] if obj is not mod else ""
+            entry = index.get(qual)
+            rec.count(f"sources_compared_{phase}")
+            if hops:
+                rec.count(f"symlinked_sources_compared_{phase}")
+                rec.maximum("max_symlinks_followed_to_a_source", hops)
+            if not rel.isascii():
+                rec.count(f"nonascii_path_sources_compared_{phase}")
+            try:
+                lines, source = obj.lines, obj.source
+            except Exception as exc:  # noqa: BLE001
+                bad(f"{obj.path}: reading lines/source raised {type(exc).__name__}: {exc}")
+                lines = source = None
+            if lines is not None:
+                if obj.is_module:
+                    want = want_all
+                elif entry and not structural_only:
+                    want = want_all[entry["span"][0] - 1:entry["span"][1]]
+                elif obj.lineno is not None and obj.endlineno is not None:
+                    want = want_all[obj.lineno - 1:obj.endlineno]
+                    rec.count("sources_compared_by_reported_line_numbers_only")
+                else:
+                    want = None
+                if want is not None:
+                    if lines != want:
+                        bad(f"{obj.path} ({rel}{', through a symbolic link' if hops else ''}): lines are {lines[:3]!r} ({len(lines)} lines), git has {want[:3]!r} ({len(want)} lines)")
+                    elif source != dedent("\n".join(want)):
+                        bad(f"{obj.path} ({rel}): source differs from the text git has")
+            doc = obj.docstring
+            if doc is not None and doc.lineno is not None and doc.endlineno is not None:
+                span = entry["doc"] if entry and not structural_only else None
+                if span is None:
+                    span = (doc.lineno, doc.endlineno)
+                rec.count(f"docstring_sources_compared_{phase}")
+                want_doc = "\n".join(want_all[span[0] - 1:span[1]])
+                try:
+                    got = doc.source
+                except Exception as exc:  # noqa: BLE001
+                    bad(f"{obj.path} ({rel}{', through a symbolic link' if hops else ''}): docstring.source raised {type(exc).__name__}: {exc}")
+                else:
+                    if got != want_doc:
+                        bad(f"{obj.path} ({rel}): docstring.source is {got[:60]!r}, git has {want_doc[:60]!r}")
+        for m in obj.members.values():
+            if not m.is_alias:
+                visit(m, mod, mtruth, seen)
+
+    try:
+        visit(pkg, None, None, set())
+    except Exception as exc:  # noqa: BLE001
+        bad(f"walking the package raised {type(exc).__name__}: {exc}")
+    return problems
+
+
+# ------------------------------------------------------------------------------------------
 def classify(op: dict, diff: dict, leftovers: list, fp: gs.GitFailpoints, before: dict | None) -> tuple[str | None, list[str]]:
     """Mechanism classifiers for listed findings: predicates over the operation, the observed git trace and the diff."""
     tried = ["C20-unclean-worktree-leak", "C20-interrupt-after-worktree-add", "C20-prune-drops-user-stale-worktree"]
@@ -393,7 +690,12 @@ def run_case(ctx: Ctx, repo: Repo, op: dict) -> dict:  # noqa: C901, PLR0912, PL
         repo.add_stale_worktree()
         rec.count("user_stale_worktree_cases")
     before = repo.before
-    private_tmp = tempfile.mkdtemp(prefix="tmp-", dir=ctx.base)
+    tmp_real = tempfile.mkdtemp(prefix="tmp-", dir=ctx.base)
+    private_tmp = tmp_real
+    if hist.get("tmpdir") == "symlinked":  # a temporary directory that is reached through a symbolic link (/tmp on some systems)
+        private_tmp = tmp_real + "-link"
+        os.symlink(tmp_real, private_tmp)
+        rec.count("symlinked_tmpdir_cases")
     os.environ["TMPDIR"] = private_tmp
     tempfile.tempdir = None
     fp = gs.GitFailpoints(fault["at"], fault["kind"]) if fault and fault["type"] == "git" else gs.GitFailpoints()
@@ -402,10 +704,51 @@ def run_case(ctx: Ctx, repo: Repo, op: dict) -> dict:  # noqa: C901, PLR0912, PL
     ref = repo.resolve(op["ref"]) if op.get("ref") else None
     opts = dict(op.get("opts", {}))
     search = ["src"] if hist.get("layout") == "src" else None
+    structural = bool(opts.get("force_inspection"))
+    if op.get("shared_lines"):
+        if repo.shared_lines is None:
+            repo.shared_lines = griffe.LinesCollection()
+        opts["lines_collection"] = repo.shared_lines
+        rec.count("loads_into_a_shared_lines_collection")
+    # ground truth fixed BEFORE the operation: the commit each reference designates in the user's repository
+    against = repo.resolve(op["against"]) if op.get("against") else None
+    base_ref = repo.resolve(op["base_ref"]) if op.get("base_ref") else None
+    want_commits = [gs.commit_of(repo.path, r) if r else None for r in ((ref,) if op["op"] == "load_git" else (against, base_ref))]
+    captured: list[dict] = []
+    later_problems: list[str] = []
+    during_problems: list[str] = []
+    during_checked: list[int] = []
+
+    def observer(pkg) -> None:  # noqa: ANN001
+        """Runs inside the load (``on_package_loaded``): the temporary checkout of THIS load exists right now."""
+        pfp = pkg.filepath
+        root = None if isinstance(pfp, list) else worktree_root(pfp)
+        item = {"pkg": pkg, "root": root, "head": None}
+        if root and os.path.isdir(root):
+            item["head"] = gs.git(root, "rev-parse", "--verify", "-q", "HEAD", check=False, optional_locks=False).strip() or None
+        # objects returned by EARLIER loads (their checkouts are gone) are read while this load is in progress
+        for h in repo.held:
+            found_h = verify_sources(rec, h["pkg"], h["truth"], "during_later_load", h["label"], h["structural"])
+            h["broken"] = h.get("broken") or bool(found_h)
+            later_problems.extend(found_h)
+        for prev in captured:  # check(): the package of the first reference while the second one is being loaded
+            if prev["head"]:
+                later_problems.extend(verify_sources(rec, prev["pkg"], {"tree": repo.tree(prev["head"]), "root": prev["root"]},
+                                                     "during_later_load", f"{op['op']} package #{len(captured)}", structural))
+        if item["head"] and fault is None:
+            during_checked.append(1)
+            during_problems.extend(verify_sources(rec, pkg, {"tree": repo.tree(item["head"]), "root": root}, "during_load",
+                                                  f"{op['op']} package #{len(captured) + 1}", structural))
+        captured.append(item)
+
+    ext_state["observer"] = observer
     cwd = os.getcwd()
     repo_arg: object = repo.path
     if op.get("repo_form") == "path":
         repo_arg = Path(repo.path)
+    elif op.get("repo_form") == "link":
+        repo_arg = repo.link
+        rec.count("symlinked_repo_path_cases")
     elif op.get("repo_form") == "dot" or op["op"] == "check":
         os.chdir(repo.path)
         if op["op"] != "check":
@@ -431,8 +774,6 @@ def run_case(ctx: Ctx, repo: Repo, op: dict) -> dict:  # noqa: C901, PLR0912, PL
                 else:
                     from _griffe import cli
 
-                    against = repo.resolve(op["against"]) if op.get("against") else None
-                    base_ref = repo.resolve(op["base_ref"]) if op.get("base_ref") else None
                     with contextlib.redirect_stderr(stderr):
                         try:
                             result = cli.check(hist["name"], against, base_ref=base_ref, extensions=[ext], search_paths=search,
@@ -460,9 +801,11 @@ def run_case(ctx: Ctx, repo: Repo, op: dict) -> dict:  # noqa: C901, PLR0912, PL
     after = gs.snapshot(repo.path)
     rec.count("snapshots_compared")
     diff = gs.snapshot_diff(before, after)
-    leftovers = sorted(os.listdir(private_tmp))
+    leftovers = sorted(os.listdir(tmp_real))
     rec.count("tmpdir_listings_checked")
-    shutil.rmtree(private_tmp, ignore_errors=True)
+    if private_tmp != tmp_real:
+        os.unlink(private_tmp)
+    shutil.rmtree(tmp_real, ignore_errors=True)
     for e in fp.log:
         rec.add_to_set("git_commands_and_statuses", f"{e['cmd']} -> {e.get('status')}" + (f" [{e['fault']}]" if e.get("fault") else "")
                        + (" then KeyboardInterrupt" if e.get("then") else ""))
@@ -525,6 +868,59 @@ def run_case(ctx: Ctx, repo: Repo, op: dict) -> dict:  # noqa: C901, PLR0912, PL
         for p in usability(rec, result, hist, exp_files, bool(opts.get("force_inspection"))):
             problems.append((p, None))
         rec.count("successful_loads")
+    # ---- source lines of every object, now that every temporary checkout is gone -----------------------------------------
+    src_problems: list[str] = list(ext_state.get("observer_errors", []))
+    new_hold = None
+    if exc is None and op["op"] == "load_git" and result is not None and want_commits[0]:
+        top = result.package if hasattr(result, "package") else result
+        tfp = top.filepath
+        root = None if isinstance(tfp, list) else worktree_root(tfp)
+        label = f"load_git(ref={ref!r})"
+        if captured and captured[-1]["head"]:
+            rec.count("checkout_commits_observed")
+            if captured[-1]["head"] != want_commits[0]:
+                src_problems.append(f"{label}: the temporary checkout was at commit {captured[-1]['head'][:10]}, the reference "
+                                    f"designates {want_commits[0][:10]}")
+        truth = {"tree": repo.tree(want_commits[0]), "root": root}
+        found = verify_sources(rec, top, truth, "after_cleanup", label, structural)
+        if found and during_checked and not during_problems:
+            found = [x + " (correct while the checkout existed)" for x in found]
+        src_problems.extend(found)
+        rec.count("loaded_packages_verified_after_cleanup")
+        new_hold = {"pkg": top, "truth": truth, "label": label, "structural": structural,
+                    "op": {k: v for k, v in op.items() if k not in ("fault", "pre")}}
+    if op["op"] == "check":
+        for i, item in enumerate(captured):
+            label = f"check() package #{i + 1}"
+            ifp = item["pkg"].filepath
+            if item["root"] and item["head"]:
+                rec.count("checkout_commits_observed")
+                if i < 2 and want_commits[i] and item["head"] != want_commits[i]:
+                    src_problems.append(f"{label}: the temporary checkout was at commit {item['head'][:10]}, the reference designates "
+                                        f"{want_commits[i][:10]}")
+                truth = {"tree": repo.tree(item["head"]), "root": item["root"]}
+                rec.count("check_packages_from_refs_verified")
+            elif not isinstance(ifp, list) and str(ifp).startswith(repo.path + os.sep):
+                truth = {"fs": repo.path}
+                rec.count("check_packages_from_working_tree_verified")
+            else:
+                continue
+            src_problems.extend(verify_sources(rec, item["pkg"], truth, "after_cleanup", label, structural))
+    src_problems.extend(later_problems)
+    for h in repo.held:  # results of earlier loads stay usable whatever happened since (faults and cleanups included)
+        if h.get("broken"):
+            continue
+        rec.count("held_results_reread")
+        found_h = verify_sources(rec, h["pkg"], h["truth"], "after_later_operations", h["label"], h["structural"])
+        h["broken"] = bool(found_h)
+        src_problems.extend(found_h)
+    if src_problems and repo.held:
+        case["before"] = [h["op"] for h in repo.held]
+    repo.held = [h for h in repo.held if not h.get("broken")]  # a result found broken is reported once, by this case
+    for p in src_problems[:4]:
+        problems.append((p, None))
+    if new_hold is not None and not fault and not src_problems:
+        repo.held = [*repo.held, new_hold][-2:]
     if op["op"] == "check":
         rec.count("check_runs")
         if exc is None:
@@ -573,7 +969,7 @@ def enumerate_static_ops(hist: dict, rng: random.Random) -> list[dict]:
     ops: list[dict] = []
     opt_cycle = [{}, {"resolve_aliases": True}, {"submodules": False}, {"docstring_parser": "google"},
                  {"resolve_aliases": True, "resolve_implicit": True, "resolve_external": False}, {"allow_inspection": False}]
-    forms = ["str", "path", "dot"]
+    forms = ["str", "path", "dot", "link"]
     good = None
     for i, entry in enumerate(table):
         name = entry["ref"].get("name")
@@ -581,7 +977,7 @@ def enumerate_static_ops(hist: dict, rng: random.Random) -> list[dict]:
         expect = "ok" if isinstance(state, int) else state
         if name and "griffe-" + normalize(name) in pre:
             expect = "pre-existing-branch"
-        op = {"op": "load_git", "ref": entry["ref"], "opts": opt_cycle[i % len(opt_cycle)], "repo_form": forms[i % 3],
+        op = {"op": "load_git", "ref": entry["ref"], "opts": opt_cycle[i % len(opt_cycle)], "repo_form": forms[i % 4],
               "expect": expect, "entry": entry}
         ops.append(op)
         if expect == "ok" and name and good is None and "/" in name:
@@ -605,7 +1001,12 @@ def enumerate_static_ops(hist: dict, rng: random.Random) -> list[dict]:
     ops.append({"op": "load_git", **hist_good, "expect": "ok"})
     ops.append({"op": "load_git", **hist_good, "fault": {"type": "ext-write", "name": "notes-from-extension.txt"}, "expect": "ok"})
     ops.append({"op": "load_git", **hist_good, "fault": {"type": "ext-write", "name": "debug.log"}, "expect": "ok"})
-    ops.append({"op": "load_git", **hist_good, "expect": "ok"})
+    # two loads of one ref into ONE lines collection supplied by the caller, the first result kept alive meanwhile
+    other = next((e for e in table if isinstance(e["state"], int) and e["state"] != good["state"] and "name" in e["ref"]
+                  and "griffe-" + normalize(e["ref"]["name"]) not in pre), good)  # another ref, other module texts
+    ops.append({"op": "load_git", **hist_good, "shared_lines": True, "expect": "ok"})
+    ops.append({"op": "load_git", "ref": other["ref"], "entry": other, "shared_lines": True, "repo_form": "link", "expect": "ok"})
+    ops.append({"op": "load_git", **hist_good, "shared_lines": True, "repo_form": "link", "expect": "ok"})
     # the checkout directory disappears under the loader (the only situation in which `worktree prune` has work to do)
     ops.append({"op": "load_git", **hist_good, "fault": {"type": "ext-rmtree", "then": "return"}, "expect": "ok"})
     ops.append({"op": "load_git", **hist_good, "fault": {"type": "ext-rmtree", "then": "raise"}, "expect": "ok"})
@@ -647,7 +1048,13 @@ def check_ops(hist: dict, tier: str) -> list[dict]:
 
 def ext_fault_ops(hist: dict, base_op: dict, trace_len: int, tier: str) -> list[dict]:
     ops = []
-    for n in range(1, trace_len + 1):
+    positions = list(range(1, trace_len + 1))
+    if tier != "thorough" and trace_len > QUICK_EXT_POINTS:
+        # quick tier, long trace (many modules): the first and last ten events and evenly spread positions in between
+        inner = QUICK_EXT_POINTS - 20
+        spread = {11 + round(i * (trace_len - 21) / (inner - 1)) for i in range(inner)}
+        positions = sorted(set(range(1, 11)) | spread | set(range(trace_len - 9, trace_len + 1)))
+    for n in positions:
         ops.append({**base_op, "fault": {"type": "ext", "n": n, "exc": "RuntimeError"}})
         if tier == "thorough" or n % 3 == 1 or n == trace_len:
             ops.append({**base_op, "fault": {"type": "ext", "n": n, "exc": "KeyboardInterrupt"}})
@@ -658,6 +1065,8 @@ def ext_fault_ops(hist: dict, base_op: dict, trace_len: int, tier: str) -> list[
 
 def run_history(ctx: Ctx, hist: dict, rng: random.Random, tier: str) -> None:
     repo = Repo(ctx, hist)
+    for kind in hist.get("extras", {}):
+        ctx.rec.count(f"histories_with[{kind}]")
     try:
         ops = enumerate_static_ops(hist, rng)
         trace_len = None
